@@ -93,7 +93,8 @@ def gen_src(rng, i, malformed):
     r = rng.random()
     if r < (0.45 if malformed else 0.8):
         return {'kind': 'last'}
-    k = rng.choice(['flip', 'flip', 'flip', 'trunc', 'trunc', 'append', 'other-secret', 'other-salt', 'other-alg',
+    k = rng.choice(['flip', 'flip', 'trunc', 'trunc', 'append', 'append', 'insert', 'insert', 'insert', 'swapalpha', 'lastbits',
+                    'other-secret', 'other-salt', 'other-alg',
                     'garbage', 'forged', 'stale', 'none'])
     if k == 'flip':
         return {'kind': 'flip', 'pos': rng.choice([0, 1, 5, 84, 85, 86, 87, 88, 100, -1, -2, -3, rng.randrange(0, 400)]),
@@ -101,7 +102,14 @@ def gen_src(rng, i, malformed):
     if k == 'trunc':
         return {'kind': 'trunc', 'n': rng.choice([0, 1, 2, 3, 10, 86, rng.randrange(0, 300)]), 'end': rng.random() < 0.7}
     if k == 'append':
-        return {'kind': 'append', 'text': rng.choice(['A', '=', '==', 'AAAA', 'xy', '.', ' '])}
+        return {'kind': 'append', 'text': rng.choice(APPENDS)}
+    if k == 'insert':
+        return {'kind': 'insert', 'pos': rng.choice([0, 1, 2, 3, 4, 10, 43, 85, 86, 87, 88, -1, -2, -3, -4, rng.randrange(0, 400)]),
+                'text': rng.choice(INSERTS)}
+    if k == 'swapalpha':
+        return {'kind': 'swapalpha', 'n': rng.choice([1, 1, 2, 1000])}
+    if k == 'lastbits':
+        return {'kind': 'lastbits', 'bit': rng.randrange(0, 3)}
     if k == 'garbage':
         return gen_garbage(rng)
     if k == 'forged':
@@ -109,6 +117,16 @@ def gen_src(rng, i, malformed):
     if k == 'stale':
         return {'kind': 'stale', 'i': rng.randrange(0, 4)}
     return {'kind': k}
+
+
+# what base64.urlsafe_b64decode / binascii.a2b_base64 (non-strict) tolerate: characters outside both alphabets are
+# discarded anywhere (punctuation, whitespace, bytes >= 128), '=' is ignored unless it completes a quantum (then the
+# rest is ignored), '+' '/' are accepted beside '-' '_'; data characters are NOT ignored (one or two more change or
+# break the decoding); non-latin-1 text cannot even be encoded
+INSERTS = ['!', '!!!!', '~', '.', '*', ' ', '\n', '\r\n', '\t', '\xe9', '\xff\xfe', '\u20ac', '=', '==', '===', '====',
+           'A', 'AA', 'AAAA', '+', '/', '-', '!A', '=A']
+APPENDS = ['=', '==', '===', '====', '!!!!', '=!!!!', '==AAAA', '=A', '\n', ' ', '.', 'A', 'AA', 'AAA', 'AAAA', 'xy',
+           '\xe9', '\u20ac']
 
 
 def gen_garbage(rng):
@@ -204,7 +222,7 @@ def generate(rng, tier, n):
             yield gen_chain(rng)
 
 
-SRC_KINDS = {'none', 'last', 'flip', 'trunc', 'append', 'other-secret', 'other-salt', 'other-alg', 'garbage', 'forged', 'stale'}
+SRC_KINDS = {'none', 'last', 'flip', 'trunc', 'append', 'insert', 'swapalpha', 'lastbits', 'other-secret', 'other-salt', 'other-alg', 'garbage', 'forged', 'stale'}
 
 
 def _okt(t):
@@ -241,7 +259,9 @@ def valid(case):
                 return False
             if s['kind'] == 'flip' and (not isinstance(s['ch'], str) or len(s['ch']) != 1 or not isinstance(s['pos'], int)):
                 return False
-            if s['kind'] in ('garbage', 'append') and not isinstance(s['text'], str):
+            if s['kind'] in ('garbage', 'append', 'insert') and not isinstance(s['text'], str):
+                return False
+            if s['kind'] == 'insert' and not isinstance(s.get('pos'), int):
                 return False
             if s['kind'] == 'trunc' and not isinstance(s['n'], int):
                 return False
